@@ -46,6 +46,13 @@ RetVal(m, o) == LET r == Ret(m, o) IN IF o.op \in {"next", "prev"} /\ r # None T
 IterRet(S, back) == IF S = {} THEN None ELSE IF back THEN SetMax(S) ELSE SetMin(S)
 IterEff(S, back) == IF S = {} THEN S ELSE S \ {IterRet(S, back)}
 
+\* the derived forms nth(n) / nth_back(n) (and with them skip, step_by): n elements are consumed
+\* and discarded, the next one is returned; past the end everything is consumed and None returned
+RECURSIVE IterSkip(_, _, _)
+IterSkip(S, n, back) == IF n = 0 \/ S = {} THEN S ELSE IterSkip(IterEff(S, back), n - 1, back)
+IterNthRet(S, n, back) == IterRet(IterSkip(S, n, back), back)
+IterNthEff(S, n, back) == IterEff(IterSkip(S, n, back), back)
+
 \* invariants every implementation state must satisfy w.r.t. the abstract content
 LenIsCard(m, len) == len = Cardinality(DOMAIN m)
 =============================================================================
